@@ -7,7 +7,7 @@
     positive exponent is rescaled to exponent 0). *)
 From SpyneV Require Export Base.Digits C06.Syntax.
 
-Record dec := mkdec { d_neg : bool; d_coeff : Z; d_exp : Z }.
+Record decimal := mkdec { d_neg : bool; d_coeff : Z; d_exp : Z }.
 
 Fixpoint zeros (n : nat) : text := match n with O => [] | S k => 48 :: zeros k end.
 Definition zerosZ (n : Z) : text := zeros (Z.to_nat n).
@@ -18,7 +18,7 @@ Definition sign_text (neg : bool) : text := if neg then [45] else [].
 Definition signed_int (n : Z) : text := if n <? 0 then str_int n else 43 :: str_int n.
 
 (** Decimal.__str__ *)
-Definition dec_str (d : dec) : text :=
+Definition dec_str (d : decimal) : text :=
   let digits := str_nat (d_coeff d) in
   let n := len digits in
   let leftdigits := d_exp d + n in
@@ -31,7 +31,7 @@ Definition dec_str (d : dec) : text :=
   sign_text (d_neg d) ++ body ++ ex.
 
 (** format(d, 'f') *)
-Definition dec_plain (d : dec) : text :=
+Definition dec_plain (d : decimal) : text :=
   let digits := str_nat (d_coeff d) in
   let n := len digits in
   let e := if (d_coeff d =? 0) && (0 <? d_exp d) then 0 else d_exp d in
@@ -42,7 +42,7 @@ Definition dec_plain (d : dec) : text :=
     else firstn (Z.to_nat dotplace) digits ++ 46 :: skipn (Z.to_nat dotplace) digits in
   sign_text (d_neg d) ++ body.
 
-Definition dec_print (p : dec_printer) (d : dec) : text :=
+Definition dec_print (p : dec_printer) (d : decimal) : text :=
   match p with DecStr => dec_str d | DecPlain => dec_plain d end.
 
 (** xs:decimal lexical space ([+-]? (digits (. digits* )? | . digits+)) and its value *)
@@ -51,7 +51,7 @@ Fixpoint span_digits (l : text) : text * text :=
   | c :: r => if is_digit c then let '(a, b) := span_digits r in (c :: a, b) else ([], l)
   | [] => ([], [])
   end.
-Definition xs_decimal_unsigned (neg : bool) (s : text) : option dec :=
+Definition xs_decimal_unsigned (neg : bool) (s : text) : option decimal :=
   let '(ip, rest) := span_digits s in
   match rest with
   | [] => match ip with [] => None | _ => Some (mkdec neg (val_digits 0 ip) 0) end
@@ -66,7 +66,7 @@ Definition xs_decimal_unsigned (neg : bool) (s : text) : option dec :=
       end
   | _ => None
   end.
-Definition xs_decimal (s : text) : option dec :=
+Definition xs_decimal (s : text) : option decimal :=
   match s with
   | 45 :: r => xs_decimal_unsigned true r
   | 43 :: r => xs_decimal_unsigned false r
@@ -74,14 +74,14 @@ Definition xs_decimal (s : text) : option dec :=
   end.
 
 (** numeric comparison: scale both coefficients to the smaller exponent *)
-Definition dec_scaled (d : dec) (m : Z) : Z :=
+Definition dec_scaled (d : decimal) (m : Z) : Z :=
   (if d_neg d then -1 else 1) * d_coeff d * 10 ^ (d_exp d - m).
-Definition dec_compare (a b : dec) : comparison :=
+Definition dec_compare (a b : decimal) : comparison :=
   let m := Z.min (d_exp a) (d_exp b) in
   Z.compare (dec_scaled a m) (dec_scaled b m).
-Definition dec_ltb (a b : dec) : bool := match dec_compare a b with Lt => true | _ => false end.
-Definition dec_leb (a b : dec) : bool := match dec_compare a b with Gt => false | _ => true end.
-Definition dec_eqb (a b : dec) : bool := match dec_compare a b with Eq => true | _ => false end.
+Definition dec_ltb (a b : decimal) : bool := match dec_compare a b with Lt => true | _ => false end.
+Definition dec_leb (a b : decimal) : bool := match dec_compare a b with Gt => false | _ => true end.
+Definition dec_eqb (a b : decimal) : bool := match dec_compare a b with Eq => true | _ => false end.
 
 (** XSD totalDigits / fractionDigits of the value: trailing fractional zeros do not count *)
 Fixpoint strip_tz (fuel : nat) (c e : Z) : Z * Z :=
@@ -89,7 +89,7 @@ Fixpoint strip_tz (fuel : nat) (c e : Z) : Z * Z :=
   | O => (c, e)
   | S k => if (e <? 0) && (c mod 10 =? 0) && negb (c =? 0) then strip_tz k (c / 10) (e + 1) else (c, e)
   end.
-Definition dec_digits (d : dec) : Z * Z :=
+Definition dec_digits (d : decimal) : Z * Z :=
   if d_coeff d =? 0 then (1, 0)
   else
     let '(c, e) := strip_tz (Z.to_nat (- d_exp d)) (d_coeff d) (d_exp d) in
